@@ -180,7 +180,13 @@ fn frame_program(n0: usize, n1: usize, lcd_off: bool) -> Vec<u8> {
 /// reports on fd 2 after each call: frames completed by the LCD during the call, LY and mode at return
 pub fn frame_child(opts: &Opts) {
   let (n0, n1) = (opts.get_usize("n0", 0), opts.get_usize("n1", 0));
-  let mut core = setup(&frame_program(n0, n1, opts.get_usize("off", 0) == 1), [0x01b0, 0x0013, 0x00d8, 0x014d]);
+  let rl = opts.get_usize("rl", 0);
+  let mut core = if rl != 0 {
+    // the loop sits in ROM in the last two bytes of a 16 KiB region (JR -2 at `rl`); the program in work RAM jumps there
+    let mut c = setup(&[0xc3, (rl & 0xff) as u8, (rl >> 8) as u8], [0x01b0, 0x0013, 0x00d8, 0x014d]);
+    c.memory.rom[rl] = 0x18; c.memory.rom[rl + 1] = 0xfe;
+    c
+  } else { setup(&frame_program(n0, n1, opts.get_usize("off", 0) == 1), [0x01b0, 0x0013, 0x00d8, 0x014d]) };
   unsafe { libc::alarm(opts.get_usize("alarm", 8) as u32); }
   let err = std::io::stderr();
   for k in 1..=2 {
@@ -193,10 +199,12 @@ pub fn frame_child(opts: &Opts) {
   }
 }
 
-fn frame_probe(n0: usize, n1: usize, cap: usize, off: usize, w: &mut dyn Write) {
+fn frame_probe(n0: usize, n1: usize, cap: usize, off: usize, w: &mut dyn Write) { frame_probe_rl(n0, n1, cap, off, 0, w) }
+
+fn frame_probe_rl(n0: usize, n1: usize, cap: usize, off: usize, rl: usize, w: &mut dyn Write) {
   let exe = std::env::current_exe().unwrap();
   let out = std::process::Command::new(&exe).arg("c09.framechild").arg("--n0").arg(n0.to_string()).arg("--n1").arg(n1.to_string())
-    .arg("--alarm").arg("8").arg("--off").arg(off.to_string()).stdin(std::process::Stdio::null()).stdout(std::process::Stdio::null()).stderr(std::process::Stdio::piped())
+    .arg("--alarm").arg("8").arg("--off").arg(off.to_string()).arg("--rl").arg(rl.to_string()).stdin(std::process::Stdio::null()).stdout(std::process::Stdio::null()).stderr(std::process::Stdio::piped())
     .output().unwrap();
   let so = String::from_utf8_lossy(&out.stderr).to_string();
   let mut r: Vec<(u32, u64, u32, u32)> = vec![(0, 0, 0, 0), (0, 0, 0, 0)];
@@ -207,7 +215,7 @@ fn frame_probe(n0: usize, n1: usize, cap: usize, off: usize, w: &mut dyn Write) 
       r[if t[0] == "R1" { 0 } else { 1 }] = (1, g(t[1]), g(t[2]) as u32, g(t[3]) as u32);
     }
   }
-  writeln!(w, "c09.frame n0={} n1={} cap={} off={} | e1={} f1={} ly1={} m1={} e2={} f2={} ly2={} m2={} blk={}", n0, n1, cap, off,
+  writeln!(w, "c09.frame n0={} n1={} cap={} off={} rl={} | e1={} f1={} ly1={} m1={} e2={} f2={} ly2={} m2={} blk={}", n0, n1, cap, off, rl,
     r[0].0, r[0].1, r[0].2, r[0].3, r[1].0, r[1].1, r[1].2, r[1].3, 4 * (n1 + 4)).unwrap();
 }
 
@@ -230,7 +238,7 @@ pub fn run(sub: &str, opts: &Opts, w: &mut dyn Write) {
     // re-run exactly the case whose inputs are in that line
     if sub == "frame" {
       let g = |k: &str| field(line, k).parse::<usize>().unwrap_or(0);
-      frame_probe(g("n0"), g("n1"), g("cap"), g("off"), w);
+      frame_probe_rl(g("n0"), g("n1"), g("cap"), g("off"), g("rl"), w);
     } else {
       let prog = unhex(field(line, "prog"));
       let iv: Vec<u16> = field(line, "init").split(',').map(|x| x.parse::<u16>().unwrap_or(0)).collect();
@@ -257,6 +265,9 @@ pub fn run(sub: &str, opts: &Opts, w: &mut dyn Write) {
       let cap = if per > 200 { 40 * 17556 / per + 50 } else { 4 * 17556 };
       frame_probe(*n0, *n1, cap, i % 3 / 2, w);   // every third probe switches the display off first (LCDC bit 7 clear)
     }
+    // polling loops that sit in the last bytes of a 16 KiB ROM region: every block starts one or two bytes before the
+    // region's end (0x3FFE / 0x7FFE: JR -2)
+    if shard == 0 { for rl in [0x3ffeusize, 0x7ffe] { frame_probe_rl(0, 0, 4 * 17556, 0, rl, w); } }
     return;
   }
   let name = if sub == "blocks" { "c09.blocks" } else { "c09" };
